@@ -360,7 +360,9 @@ def run_wchars(ctx, res):
 # ------------------------------------------------------------------ terms (shared with C15)
 PLAIN = ["a", "b", "foo", "f", "g", "x1", "aB_c"]
 TRICKY = ["[]", "{}", "|", ",", "-", "+", "\\", "/*", ".", "\n", "", "é", "日本", "=..", "-->", ":-", "*", "**", "^", "=", "is", "mod", "dynamic",
-          "\\+", ";", "!", "->", "'", "A", "_x", "a b", "$VAR", "?-", ":", "@", "#", "1", "e", "0'", "rdiv", "//", "<", "\t", "\x01", "a.b", "..", "~"]
+          "\\+", ";", "!", "->", "'", "A", "_x", "a b", "$VAR", "?-", ":", "@", "#", "1", "e", "0'", "rdiv", "//", "<", "\t", "\x01", "a.b", "..", "~",
+          # non-ASCII layout and format characters (written escaped inside quotes, or the text does not read back)
+          "\u00a0", "a\u00a0b", "\u2028", "\u3000x", "\u1680", "\u0085", "\u200b", "x\u2003"]
 
 
 def default_ops():
